@@ -79,6 +79,23 @@ def _(c):
     _common(c)
 
 
+@contract(MOD + ":MessageAccumulator.close", ["C02", "C19"])
+def _(c):
+    """producer.stop(): no record is accepted any more (add_message refuses once _closed is set), then everything
+    accepted so far is flushed. The order matters: a record accepted after the flush took its snapshot of the batches
+    would be covered by no flush, and stop() would return with its future unresolved."""
+    c.self_("MessageAccumulator")
+    c.no_class_inv = True
+    c.immutable("MessageBatch.future")
+    c.modifies("self._closed")
+    c.raises("cancelled", "CancelledError")
+    c.hook("before", "self.flush", [
+        ("assert", "nothing-is-accepted-any-more-when-the-final-flush-takes-its-snapshot", "self._closed"),
+    ])
+    c.replay_fn = lambda model, ob=None: {"script": _FLUSH_SCRIPT.replace("flush_replay.sweep()", "flush_replay.close_sweep()")}
+    c.ensures("every-batch-queued-or-in-flight-at-the-call-is-resolved", ALL_RESOLVED)
+
+
 @contract(MOD + ":MessageAccumulator.flush_for_commit", ["C07", "C02"])
 def _(c):
     _common(c)
